@@ -1,5 +1,5 @@
 #!/bin/sh
 # runs every implemented check (quick) on /repo; prints one line per property
 cd /verif; rc=0
-for p in $(bin/ndndcheck -list); do ./check $p ${1:-quick} | tail -1 || rc=1; done
+for p in $(bin/ndndcheck -list); do ./check $p ${1:-quick} | grep -E "UNDECIDED|VIOLATION:|(quick|thorough):" | cut -c1-500 || rc=1; done
 exit $rc
